@@ -200,3 +200,21 @@ CHECKS["C02"] = {
     "outside": ["sfnt.Read / cff.Read / gtab.Read on whole adversarial files (component readers only; the gtab subtable readers are exercised under C07)", "inputs of realistic size (several MB), time/allocation linearity beyond the per-path allocation obligation (e.g. quadratic work from overlapping kern subtables)", "termination beyond the unwinding bound of 100000 iterations per loop"],
     "assumptions": ["counts inside the inputs are assumed small where a decoder materialises per-entry data (listed in each harness)", "allocation obligation: every make() on a path is at most 2^22 elements (1 MiB in the CFF Private DICT harness)"],
 }
+
+_G = ["c08.go", "common.go"]
+CHECKS["C08"] = {
+    "harnesses": [
+        H("opentype/coverage", "c08.go", "VerifH_C08_coverage", ["read", "format2"], quick={"params": {"maxglyphs": 4}, "timeout": 280}, thorough={"params": {"maxglyphs": 6}, "timeout": 2400}),
+        H("opentype/coverage", "c08.go", "VerifH_C08_coverage_bytes", ["accepted"], quick={"params": {"maxlen": 8}, "timeout": 280}, thorough={"params": {"maxlen": 16}, "timeout": 2400}),
+        H("opentype/classdef", "c08.go", "VerifH_C08_classdef", ["read", "format1", "format2"], quick={"params": {"maxglyphs": 3}, "timeout": 280}, thorough={"params": {"maxglyphs": 5}, "timeout": 2400}),
+        H("opentype/classdef", "c08.go", "VerifH_C08_classdef_bytes", ["accepted"], quick={"params": {"maxlen": 8}, "timeout": 280}, thorough={"params": {"maxlen": 16}, "timeout": 2400}),
+        H("opentype/gtab", _G, "VerifH_C08_gsub", ["read"], quick={"timeout": 280}),
+        H("opentype/gtab", _G, "VerifH_C08_gpos", ["read"], quick={"timeout": 280}),
+        H("opentype/gtab", _G, "VerifH_C08_context", ["read"], quick={"params": {"ctxbig": 0}, "timeout": 280, "shards": 4}, thorough={"params": {"ctxbig": 1}, "timeout": 2400, "shards": 4}),
+        H("opentype/gtab", _G, "VerifH_C08_lookuplist", ["read"], quick={"params": {"maxlookups": 2}, "timeout": 280}, thorough={"params": {"maxlookups": 3}, "timeout": 2400}),
+    ],
+    "bounds": {"quick": "coverage tables of 0..4 symbolic glyph ids over the full 16-bit range, arbitrary coverage bytes (<=12); class definitions of 0..3 glyphs inside an 8-id window with symbolic classes, arbitrary bytes (<=12); GSUB 1.1/1.2/2.1/3.1/4.1, GPOS 1.1/1.2/2.1, (chained) sequence context formats 1 and 3 with 1..2 coverage glyphs, <=2 rules/ligatures/alternates, <=2 nested actions, all ids/values symbolic; lookup lists of 0..2 lookups with symbolic flags and mark filtering set",
+               "thorough": "6 coverage glyphs, 5 classdef glyphs, 3 lookups"},
+    "outside": ["class-based context formats (5.2/6.2), GPOS 2.2/3/4/5/6, GSUB 8.1 round trips", "extension subtables for lookup lists beyond 64 KiB", "gtab.Info with script/language/feature lists (x/text language tags)", "gdef.Table"],
+    "assumptions": ["coverage tables have indices 0..n-1 in increasing glyph order (value domain)", "class 0 entries are not stored (normal form)"],
+}
